@@ -77,7 +77,7 @@ pub fn programs(tier: Tier) -> ProgramSet {
         add(format!("N={} generic<T: Default>", n), s);
     }
     // SCALE: larger enums (cursor pairs up to (N+1)(N+2)/2 states per live iterator)
-    let scale: &[usize] = if tier == Tier::Quick { &[9, 17] } else { &[9, 17, 33, 65] };
+    let scale: &[usize] = if tier == Tier::Quick { &[9, 17, 256] } else { &[9, 17, 33, 65, 255, 256, 257] };
     for &n in scale {
         let mut spec = EnumSpec::base(0);
         for i in 0..n {
@@ -92,7 +92,7 @@ pub fn programs(tier: Tier) -> ProgramSet {
     ProgramSet {
         programs: finish(out),
         excluded: Default::default(),
-        bounds: json!({"N_max": nmax, "scale_N": if tier == Tier::Quick { json!([9, 17]) } else { json!([9, 17, 33, 65]) }, "live_iterators_max": 2, "two_live_up_to_N": two_live_limit(tier),
+        bounds: json!({"N_max": nmax, "scale_N": if tier == Tier::Quick { json!([9, 17, 256]) } else { json!([9, 17, 33, 65, 255, 256, 257]) }, "live_iterators_max": 2, "two_live_up_to_N": two_live_limit(tier),
             "n_values": "0..N+2, 2^16, 2^32, 2^63-1, 2^63, usize::MAX-N-2..=usize::MAX",
             "adaptor_j": "1,2,N,N+1,usize::MAX", "search": "BFS to fixpoint (all reachable states)"}),
     }
@@ -231,7 +231,7 @@ where
     fn fold_items(&self) -> Vec<usize> {
         let f = self.f;
         self.it.clone().fold(Vec::new(), |mut acc, v| {
-            if acc.len() < 64 {
+            if acc.len() < 100_000 {
                 acc.push(f(&v));
             }
             acc
@@ -240,7 +240,7 @@ where
     fn rfold_items(&self) -> Vec<usize> {
         let f = self.f;
         self.it.clone().rfold(Vec::new(), |mut acc, v| {
-            if acc.len() < 64 {
+            if acc.len() < 100_000 {
                 acc.push(f(&v));
             }
             acc
@@ -609,7 +609,12 @@ pub fn explore(ctx: &mut Ctx, mk: fn() -> Box<dyn DynIter>) {
     // pass 1: one live iterator, full n alphabet; pass 2: two live iterators (clone), for N up to the tier's limit
     let full = if n > 12 {
         // SCALE programs: boundary values only
-        let mut v: Vec<usize> = vec![0, 1, 2, 7, 8, 15, 16, 31, 32, n - 1, n, n + 1, 1 << 16, 1 << 32, usize::MAX - 1, usize::MAX];
+        let mut v: Vec<usize> = if n > 100 && !ctx.thorough() {
+            // the quick tier keeps every cursor pair reachable (nth(0), nth(1)) but jumps with fewer values
+            vec![0, 1, 7, 127, n - 1, n, 1 << 32, usize::MAX]
+        } else {
+            vec![0, 1, 2, 7, 8, 15, 16, 31, 32, 63, 64, 127, 128, n - 1, n, n + 1, 1 << 16, 1 << 32, usize::MAX - 1, usize::MAX]
+        };
         v.sort();
         v.dedup();
         v
